@@ -104,6 +104,16 @@ reg(
   "Exhaustive over signatures, sampled over states/masks; MuJoCo bindings are the reference.",
 )
 
+reg(
+  "C05",
+  "property-based differential testing (Hypothesis): constraint rows as a canonical multiset vs MuJoCo C mj_makeConstraint/mj_referenceConstraint",
+  "Random models with connect/weld (body+site), joint/tendon equalities, dof/tendon frictionloss, joint/tendon limits with margins, contacts of condim 1/3/4/6, "
+  "dense+sparse, Newton+CG, both cones x random states, 1-2 worlds: ne/nf/nl/nefc equal; rows keyed by (type, object, index in object; contacts by geom pair+position) "
+  "and compared on J, pos, margin, D, vel, aref, frictionloss; contact.efc_address must point at that contact's rows with the right row count.",
+  "MuJoCo is the reference; worlds whose contact sets differ (C04 boundary/algorithmic cases) or with a limit exactly at its margin are skipped and counted; "
+  "three recorded cosmetic/edge deviations are reported as KNOWN-FINDING.",
+)
+
 NOT_APPLICABLE = {}
 
 
